@@ -71,6 +71,8 @@ def run(ctx):
               "one `Regex::new(<literal>)` builds the extraction pattern (%s)" % [l for _, l in lits],
               lits[0][0].where() if lits else "")
     prog_re = lits[0][1] if lits and lits[0][1] is not None else None
+    from .entry import rule_entry_record
+    rule_entry_record(ctx, facts, "C12-R3")
     if prog_re is not None:
         c = lits[0][0]
         e = rx.equiv(prog_re, SPEC)
